@@ -375,6 +375,48 @@ def parRun (G : PGrid F) (Mf : Int → List F → List F) (ns : List Nat) :
     let r := parCall G Mf ns cache sid xs
     r.2 :: parRun G Mf ns r.1 rest
 
+/-! ### the arrays of the manifold function as state
+
+The manifold function may hand out arrays it keeps (a PDF set with cached values, any look-up table
+keyed by the grid values): they belong to that function.  `Store` is such a table; the `…S` forms of
+the calls thread it through and return the post-store.  The code only *reads* these arrays — every
+arithmetic result (`M1 - M0`, `0.5*(M0 - 2.*M1 + M2)`, …) is a new array — so the post-store is the
+pre-store; an in-place update (`M2 += …`) of a handed-out array would be a different model. -/
+
+/-- arrays owned by the manifold function, keyed by (trial-data state, per-source grid values) -/
+abbrev Store (F : Type) := List ((Int × List F) × List F)
+
+/-- look-up (`[]` for a missing key: the calls then answer `none` through their length guard) -/
+def Store.get (st : Store F) (sid : Int) (g : List F) : List F :=
+  match st.find? (fun e => e.1.1 == sid && e.1.2 == g) with
+  | some e => e.2
+  | none => []
+
+def linCallS (G : PGrid F) (ns : List Nat) (st : Store F) (cache : Option (LinCache F)) (sid : Int)
+    (xs : List F) : Store F × (Option (LinCache F) × Option (List F × List F)) :=
+  (st, linCall G st.get ns cache sid xs)
+
+def parCallS (G : PGrid F) (ns : List Nat) (st : Store F) (cache : Option (ParCache F)) (sid : Int)
+    (xs : List F) : Store F × (Option (ParCache F) × Option (List F × List F)) :=
+  (st, parCall G st.get ns cache sid xs)
+
+/-- a history against a store: post-store and the answers -/
+def linRunS (G : PGrid F) (ns : List Nat) :
+    Store F → Option (LinCache F) → List (Int × List F) → Store F × List (Option (List F × List F))
+  | st, _, [] => (st, [])
+  | st, cache, (sid, xs) :: rest =>
+    let r := linCallS G ns st cache sid xs
+    let t := linRunS G ns r.1 r.2.1 rest
+    (t.1, r.2.2 :: t.2)
+
+def parRunS (G : PGrid F) (ns : List Nat) :
+    Store F → Option (ParCache F) → List (Int × List F) → Store F × List (Option (List F × List F))
+  | st, _, [] => (st, [])
+  | st, cache, (sid, xs) :: rest =>
+    let r := parCallS G ns st cache sid xs
+    let t := parRunS G ns r.1 r.2.1 rest
+    (t.1, r.2.2 :: t.2)
+
 end calls
 
 end Grid
